@@ -905,8 +905,11 @@ func c03OwnerDNS(c *ctx, u *universe, emitEvery int, enableChange bool) {
 			}
 		}
 		for pat := 0; pat < 4; pat++ {
-			s.call(&callSpec{Shard: 0, Fn: "SetUserName", Caller: cl, Rcpt: A, Args: [][]byte{[]byte("carol.elrond")}, Value: big.NewInt(0), Gas: bigGas, Snd: pat&1 != 0, Dst: pat&2 != 0, FailAt: -1})
-			c05Restore(w, base)
+			for _, ct := range []vmcommon.CallType{vmcommon.DirectCall, vmcommon.AsynchronousCall, vmcommon.AsynchronousCallBack, vmcommon.ESDTTransferAndExecute} {
+				s.call(&callSpec{Shard: 0, Fn: "SetUserName", Caller: cl, Rcpt: A, Args: [][]byte{[]byte("carol.elrond")}, Value: big.NewInt(0), Gas: bigGas, CallType: ct,
+					Snd: pat&1 != 0, Dst: pat&2 != 0, FailAt: -1})
+				c05Restore(w, base)
+			}
 		}
 	}
 }
